@@ -300,8 +300,11 @@ def child_load(args):
         kw["born_filename"] = "BORN"
     else:
         kw["is_nac"] = False
-    ph = phonopy.load("phonopy_disp.yaml", **kw)
-    ph.run_qpoints(PROBES, nac_q_direction=[1, 0, 0])
+    try:
+        ph = phonopy.load("phonopy_disp.yaml", **kw)
+        ph.run_qpoints(PROBES, nac_q_direction=[1, 0, 0])
+    except Exception as e:  # noqa: BLE001
+        return {"load_raised": "%s: %s" % (type(e).__name__, str(e)[:200])}
     return {"freq": np.array(ph.get_qpoints_dict()["frequencies"]), "factor": ph.unit_conversion_factor, "min_mass": float(np.min(ph.masses)),
             "nac_factor": None if ph.nac_params is None else ph.nac_params.get("factor")}
 
@@ -634,6 +637,10 @@ def execute(spec):
                             os.chdir(cwd)
                             p3 = sub(child_load, (spec, path))
                             os.chdir(path)
+                            if "load_raised" in p3:
+                                # FORCE_SETS was built and is correct; the restarted reader must be able to use it
+                                V("correct-delivery-refused", "%s:restarted-reader-raises:%s" % (calc, p3["load_raised"].split(":")[0]), detail=p3["load_raised"])
+                                continue
                             refp = reference_frequencies(w, p1["unitcell"], p1["primitive_matrix"], p1["fc_model"], p1["born"], calc)
                             d, sc = cmp_freq(p3["freq"], refp)
                             # the forces answer the positions the written file carries; every format is expected to carry the
